@@ -216,3 +216,40 @@ Proof.
       * apply select_fields_sound in S. tauto.
       * discriminate.
 Qed.
+
+(* ---------------- determinism (C16): Go map iteration order is immaterial ---------------- *)
+(* gen.nameInFileScope / nameInInjector range over Go maps (imports, values); the model passes the names as a
+   list, and every use is existential: any iteration order gives the same answer *)
+Lemma coll_perm l l' s : Permutation.Permutation l l' -> coll l s = coll l' s.
+Proof.
+  intros HP. unfold coll.
+  destruct (existsb (String.eqb s) l) eqn:E.
+  - symmetry. apply existsb_exists in E. destruct E as (x & Hx & Ex).
+    apply existsb_exists. exists x. split; auto. eapply Permutation.Permutation_in; eauto.
+  - symmetry. destruct (existsb (String.eqb s) l') eqn:E'; auto.
+    apply existsb_exists in E'. destruct E' as (x & Hx & Ex).
+    assert (existsb (String.eqb s) l = true); [|congruence].
+    apply existsb_exists. exists x. split; auto. eapply Permutation.Permutation_in; [apply Permutation.Permutation_sym; eauto|auto].
+Qed.
+
+Lemma loop_ext (c c' : string -> bool) : (forall s, c s = c' s) ->
+  forall fuel n base, loop is_keyword c fuel n base = loop is_keyword c' fuel n base.
+Proof.
+  intros H. induction fuel as [|f IH]; intros n base; cbn [loop]; [reflexivity|].
+  unfold ok. rewrite H. rewrite IH. reflexivity.
+Qed.
+
+Lemma disambiguate_ext (c c' : string -> bool) : (forall s, c s = c' s) ->
+  forall fuel name, disambiguate is_keyword c fuel name = disambiguate is_keyword c' fuel name.
+Proof.
+  intros H fuel name. unfold disambiguate, ok. rewrite H.
+  rewrite (loop_ext c c' H). reflexivity.
+Qed.
+
+Theorem disamb_in_perm bad bad' name :
+  Permutation.Permutation bad bad' -> disamb_in bad name = disamb_in bad' name.
+Proof.
+  intros HP. unfold disamb_in, disamb.
+  rewrite (Permutation.Permutation_length HP).
+  rewrite (disambiguate_ext (coll bad) (coll bad') (fun s => coll_perm _ _ s HP)). reflexivity.
+Qed.
